@@ -454,6 +454,13 @@ fn run_api(c: &Case, sandbox_root: &Path, o: &mut String) {
                 }
                 std::fs::write(&p, unhex(&l[2])).unwrap();
             }
+            "badfile" => {
+                let p = ctx.sandbox.join(unhex_str(&l[1]));
+                if let Some(d) = p.parent() {
+                    std::fs::create_dir_all(d).unwrap();
+                }
+                std::fs::write(&p, [0x61u8, 0xff, 0xfe, 0x0a]).unwrap();
+            }
             "dir" => {
                 std::fs::create_dir_all(ctx.sandbox.join(unhex_str(&l[1]))).unwrap();
             }
